@@ -116,10 +116,16 @@ Take(c) ==
   /\ held' = held \ {c} /\ size' = size - 1 /\ taken' = taken \cup {c} /\ reg' = reg \ {c}
   /\ UNCHANGED <<idle, nextC, dead, closed, cache, nq, parses>>
 
+\* the same while another thread is busy inside the registry (holds its lock): detaching waits
+TakeBusy(c) ==
+  /\ c \in held /\ Spend
+  /\ held' = held \ {c} /\ size' = size - 1 /\ taken' = taken \cup {c} /\ reg' = reg \ {c}
+  /\ UNCHANGED <<idle, nextC, dead, closed, cache, nq, parses>>
+
 Plans == [1..MaxSize -> Modes]
 Next ==
   \/ \E plan \in Plans : Get(plan)
-  \/ \E c \in Conns : Drop(c) \/ Return(c) \/ Take(c)
+  \/ \E c \in Conns : Drop(c) \/ Return(c) \/ Take(c) \/ TakeBusy(c)
   \/ \E c \in Conns : \E k \in Keys : Prepare(c, k) \/ PrepareJoin(c, k)
   \/ Clear \/ \E k \in Keys : Remove(k)
 Spec == Init /\ [][Next]_vars
